@@ -24,6 +24,8 @@ pub enum Case {
     Slope { prob: ProbSpec, x0: f64, back: bool, method: Meth, analytic_jac: bool },
     /// one Radau step on y' = lambda y, z = h*lambda = (re, im)
     Pade { re: f64, im: f64, h: f64, x0: f64, back: bool, u0: [f64; 2] },
+    /// every accepted step of an ordinary Radau run on y' = lambda*y (analytic Jacobian) is a Radau IIA step
+    PadeRun { re: f64, im: f64, mult: f64, e: f64, x0: f64, back: bool, u0: [f64; 2] },
     /// pure quadrature y' = p'(t), degree deg, coefficients in scaled time
     Quad { method: Meth, deg: usize, coef: Vec<f64>, x0: f64, len: f64, back: bool },
     /// accepted steps as a function of the tolerance
@@ -328,6 +330,63 @@ fn check_pade(re: f64, im: f64, h: f64, x0: f64, back: bool, u0: [f64; 2]) -> Ou
     Outcome::pass("RADAU:pade", true, json!({"absz": (zr * zr + zi * zi).sqrt(), "pade_defect_rel": e / scale}))
 }
 
+fn pade23(zr: f64, zi: f64) -> (f64, f64) {
+    let z2 = (zr * zr - zi * zi, 2.0 * zr * zi);
+    let z3 = (z2.0 * zr - z2.1 * zi, z2.0 * zi + z2.1 * zr);
+    let num = (1.0 + 0.4 * zr + z2.0 / 20.0, 0.4 * zi + z2.1 / 20.0);
+    let den = (1.0 - 0.6 * zr + 0.15 * z2.0 - z3.0 / 60.0, -0.6 * zi + 0.15 * z2.1 - z3.1 / 60.0);
+    let dd = den.0 * den.0 + den.1 * den.1;
+    ((num.0 * den.0 + num.1 * den.1) / dd, (num.1 * den.0 - num.0 * den.1) / dd)
+}
+
+/// An ordinary multi-step Radau run (solve_ivp, default controller, analytic Jacobian) on y' = lambda*y: the
+/// simplified Newton iteration is exact for a linear problem, so EVERY accepted step -- first, after a
+/// rejection, with re-used factors, the last one clipped to land on xend -- must map y_k to R(h_k lambda) y_k.
+fn check_pade_run(re: f64, im: f64, mult: f64, e: f64, x0: f64, back: bool, u0: [f64; 2]) -> Outcome {
+    let d = if back { -1.0 } else { 1.0 };
+    let lam = (re * re + im * im).sqrt().max(0.05);
+    let t_len = mult / lam;
+    let spec = ProbSpec { blocks: vec![Block::Pair { a: re, b: im, u0 }], warp: Warp { theta: t_len, k: 0, beta: 0.0 }, mix: None, mag2: 0 };
+    let xend = x0 + d * t_len;
+    let prob = Prob::new(&spec, x0, xend);
+    let evs = vec![EvSpec { g: Ev::Const { v: 1.0 }, dir: 0, terminal: None }];
+    let mut instr = Instr::new(&prob, &evs);
+    instr.use_jac = true;
+    instr.dir = d;
+    instr.rec_ev = true;
+    let rtol = 10f64.powf(-e);
+    let o = RunOpts { method: Meth::RADAU, rtol: Tol::S(rtol), atol: Tol::S(rtol * 1e-3), first_step: None, max_step: None, max_steps: None, t_eval: None, dense: false };
+    let sol = match solve(&instr, x0, xend, &prob.y0(), &o) {
+        RunResult::Ok(s) if s.status == Status::Success => s,
+        other => return Outcome::triv(format!("run:{}", other.describe().chars().take(30).collect::<String>())),
+    };
+    let log = instr.take_log();
+    let idx = step_end_calls(&log.ev_t, d);
+    let mut worst: f64 = 0.0;
+    for w in idx.windows(2) {
+        let (t0, t1) = (log.ev_t[w[0]], log.ev_t[w[1]]);
+        let (y0, y1) = (&log.ev_y[w[0]], &log.ev_y[w[1]]);
+        // the right-hand side is lambda * dtau/dt with dtau/dt = d (intrinsic time runs with |t - x0|)
+        let h = (t1 - t0) * d;
+        let (zr, zi) = (h * re, h * im);
+        let r = pade23(zr, zi);
+        let want = [r.0 * y0[0] - r.1 * y0[1], r.1 * y0[0] + r.0 * y0[1]];
+        let rabs = (r.0 * r.0 + r.1 * r.1).sqrt();
+        let scale = (y0[0].abs() + y0[1].abs()) * (1.0 + rabs) + f64::MIN_POSITIVE;
+        let err = max_abs_diff(y1, &want);
+        let tol = 1e-11 * scale * (1.0 + (zr * zr + zi * zi).sqrt());
+        worst = worst.max(err / tol);
+        if err > tol {
+            return Outcome::viol(format!(
+                "RADAU: accepted step {} of {} (h={:e}, z=h*lambda=({:e},{:e})) of an ordinary run on y'=lambda*y maps {:?} to {:?}, the (2,3) Pade approximant gives {:?} (diff {:e}, allowed {:e})",
+                w[0], idx.len() - 1, h, zr, zi, y0, y1, want, err, tol
+            ));
+        }
+    }
+    let _ = sol;
+    Outcome::pass("RADAU:pade-run", idx.len() >= 4, json!({"steps": idx.len() - 1, "pade_run_defect_over_tol": worst}))
+}
+
 // ---- quadrature problems: y' = p'(t) ----------------------------------------------------------
 struct QuadRhs {
     x0: f64,
@@ -470,6 +529,7 @@ pub fn check(c: &Case) -> Outcome {
         Case::Tableau { method, xs, hk, neg, clip, two, dense } => check_tableau(*method, *xs, *hk, *neg, *clip, *two, *dense),
         Case::Slope { prob, x0, back, method, analytic_jac } => check_slope(prob, *x0, *back, *method, *analytic_jac),
         Case::Pade { re, im, h, x0, back, u0 } => check_pade(*re, *im, *h, *x0, *back, *u0),
+        Case::PadeRun { re, im, mult, e, x0, back, u0 } => check_pade_run(*re, *im, *mult, *e, *x0, *back, *u0),
         Case::Quad { method, deg, coef, x0, len, back } => check_quad(*method, *deg, coef, *x0, *len, *back),
         Case::Scaling { method, a, b, theta, x0, back } => check_scaling(*method, *a, *b, *theta, *x0, *back),
     }
@@ -497,6 +557,7 @@ pub fn strategy() -> BoxedStrategy<Case> {
             let (re, im) = if n > 20.0 { (re * 20.0 / n, im * 20.0 / n) } else { (re, im) };
             Case::Pade { re, im, h, x0, back, u0: [u, v] }
         }),
+        3 => (fr(-20.0, 0.5), fr(-20.0, 20.0), fr(2.0, 60.0), fr(3.0, 8.0), fr(-5.0, 5.0), any::<bool>(), fr(0.3, 2.0), fr(-2.0, 2.0)).prop_map(|(re, im, mult, e, x0, back, u, v)| Case::PadeRun { re, im, mult, e, x0, back, u0: [u, v] }),
         3 => (emb.clone(), 0usize..=6, proptest::collection::vec(fr(-2.0, 2.0), 8..=8), fr(-50.0, 50.0), fr(0.5, 20.0), any::<bool>()).prop_map(|(method, dd, coef, x0, len, back)| {
             let dhat = match method { Meth::RK23 => 2, Meth::DOPRI5 => 4, _ => 5 };
             let deg = if dd % 3 == 0 { dhat + 1 } else { 1 + dd % dhat.max(1) + if dd > 3 { 0 } else { 0 } };
@@ -534,7 +595,7 @@ pub fn run(ctx: &Ctx, known: &[Known]) -> Report {
     }
     Report {
         id: "C02".into(),
-        rule: "five kinds of cases: (1) tableau extraction at generated (x0 = k/8, h = +-2^j) with all rooted-tree order conditions up to p (exhaustive over trees; also run once per method and sign of h as the exhaustive part), (2) local-error slope (three smallest usable of five refinements) of one step from exact data of an autonomous linear closed-form problem (RK4, RK23, DOPRI5, DOP853, Radau with fully converged Newton), (3) one Radau step on y'=lambda*y, z=h*lambda in |z|<=20 (complex via the 2x2 rotation-scaling system) against the (2,3) Pade approximant, (4) pure quadrature y'=p'(t) of degree <= d^ (estimate must vanish: every step grows by exactly the maximal factor) and d^+1 (tolerance limited), (5) accepted steps vs tolerance exponent within [0.8/q, 1.35/q]. Non-trivial = the sub-check produced a verdict from a usable measurement (>= 3 slope points, >= 4 steps, >= 5 tolerance points with >= 30 steps). Distinct = distinct canonical JSON.".into(),
+        rule: "five kinds of cases: (1) tableau extraction at generated (x0 = k/8, h = +-2^j) with all rooted-tree order conditions up to p (exhaustive over trees; also run once per method and sign of h as the exhaustive part), (2) local-error slope (three smallest usable of five refinements) of one step from exact data of an autonomous linear closed-form problem (RK4, RK23, DOPRI5, DOP853, Radau with fully converged Newton), (3) one Radau step on y'=lambda*y, z=h*lambda in |z|<=20 (complex via the 2x2 rotation-scaling system) against the (2,3) Pade approximant, and every accepted step of ordinary multi-step Radau runs on y'=lambda*y (analytic Jacobian: the simplified Newton iteration is exact, so steps after rejections, with re-used factors and the clipped last step must all be Radau IIA steps, to 1e-11), (4) pure quadrature y'=p'(t) of degree <= d^ (estimate must vanish: every step grows by exactly the maximal factor) and d^+1 (tolerance limited), (5) accepted steps vs tolerance exponent within [0.8/q, 1.35/q]. Non-trivial = the sub-check produced a verdict from a usable measurement (>= 3 slope points, >= 4 steps, >= 5 tolerance points with >= 30 steps). Distinct = distinct canonical JSON.".into(),
         assumptions: vec![
             "slope thresholds: RK4 4.5, RK23 3.5, DOPRI5 5.3, Radau 5.2, DOP853 7.5 (calibrated, see source); the decisive checks are the tree conditions (explicit methods) and the Pade approximant (Radau)".into(),
             "tree residual tolerance 2e-13, row sums 5e-14".into(),
